@@ -186,6 +186,9 @@ func LoadProgram(dir string) (*Program, error) {
 			if q, ok := p1.Imports[path]; ok && q.Types != nil {
 				return q.Types, nil
 			}
+			if q := findPkg(p1, path); q != nil {
+				return q, nil
+			}
 			return nil, fmt.Errorf("package %s not loaded", path)
 		}),
 		Error: func(err error) { terrs = append(terrs, err.Error()) },
@@ -446,7 +449,17 @@ func generateGhost(p *packages.Package, funcs map[string]*ssa.Function, cs *Cont
 			return
 		}
 		for _, id := range ids {
-			if have[id] || universe[id] || ghostNames[id] || pkgScope.Lookup(id) != nil {
+			if have[id] || universe[id] || ghostNames[id] {
+				continue
+			}
+			if allowLocals && target != nil && id != "rangeindex" {
+				if t := findLocal(p.TypesInfo, target, id); t != nil {
+					ps = append(ps, ghostParam{id, tp.str(t)})
+					have[id] = true
+					continue
+				}
+			}
+			if pkgScope.Lookup(id) != nil {
 				continue
 			}
 			if _, isPkg := importNameOf(p, id); isPkg {
@@ -506,6 +519,9 @@ func generateGhost(p *packages.Package, funcs map[string]*ssa.Function, cs *Cont
 			for i, c := range l.Invariants {
 				emit(c, fmt.Sprintf("zz_inv_%s_%d_%d", mn, o, i), lp, "bool", target, true)
 			}
+			for i, c := range l.Iters {
+				emit(c, fmt.Sprintf("zz_iter_%s_%d_%d", mn, o, i), lp, "bool", target, true)
+			}
 		}
 	}
 	for _, name := range names {
@@ -563,6 +579,7 @@ func generateGhost(p *packages.Package, funcs map[string]*ssa.Function, cs *Cont
 	for ip, n := range tp.imports {
 		candidates[n] = ip
 	}
+	candidates["strings"] = "strings"
 	rest := ghostPrelude + "\n// ---- spec code from contract files ----\n\n" + strings.Join(cs.SpecCode, "\n\n") + "\n\n// ---- clause functions ----\n\n" + body.String()
 	used := map[string]bool{}
 	if f, err := parser.ParseFile(token.NewFileSet(), "ghost.go", "package x\n"+rest, 0); err == nil {
@@ -606,4 +623,26 @@ func importNameOf(p *packages.Package, id string) (string, bool) {
 func importPathOf(p *packages.Package, id string) string {
 	s, _ := importNameOf(p, id)
 	return s
+}
+
+// findPkg looks for a package among the transitive imports (export data) of p.
+func findPkg(p *packages.Package, path string) *types.Package {
+	seen := map[*types.Package]bool{}
+	var rec func(t *types.Package) *types.Package
+	rec = func(t *types.Package) *types.Package {
+		if t == nil || seen[t] {
+			return nil
+		}
+		seen[t] = true
+		if t.Path() == path {
+			return t
+		}
+		for _, i := range t.Imports() {
+			if r := rec(i); r != nil {
+				return r
+			}
+		}
+		return nil
+	}
+	return rec(p.Types)
 }
